@@ -6,6 +6,11 @@ From Ucfg Require Import Base ParseInt Consts Field Tree PathOps Merge OTree F64
 
 Local Open Scope Z_scope.
 
+Lemma in_seg_ok {A} seg (r : res A) y : in_seg seg r = Ok y -> r = Ok y.
+Proof. destruct r; simpl; intro H; congruence. Qed.
+Lemma in_seg_of_ok {A} seg (y : A) : in_seg seg (Ok y) = Ok y.
+Proof. reflexivity. Qed.
+
 (** * C04: validators *)
 Lemma run_validators_sound vo ts w :
   run_validators vo ts w = Ok tt -> Forall (fun t => run_vtag vo t w = Ok tt) ts.
@@ -171,7 +176,8 @@ Definition struct_loop (f : nat) (o : ropts) (cfg : value) :=
                       reify_merge_value f (o', th, vts) ft x (match v with Some n => n | None => VNil end)
                     | _ => _ <- rec_validate (r_vo o) ft x vts ;; Ok x
                     end
-                  else reify_merge_value f (o', th, vts) ft x (match v with Some n => n | None => VNil end)) ;;
+                  else in_seg (match get_path "" p cfg with Ok (Some (pth, _)) => pth | _ => "" end)
+                              (reify_merge_value f (o', th, vts) ft x (match v with Some n => n | None => VNil end))) ;;
           rest <- go fr vr ;;
           Ok (y :: rest)
         end
@@ -317,3 +323,52 @@ Lemma fits_extremes :
   fits (KInt 64) (CI (- 2 ^ 63)) /\ fits (KInt 64) (CI (2 ^ 63 - 1)) /\ fits (KUint 64) (CU (2 ^ 64 - 1))
   /\ fits (KInt 8) (CI (-128)) /\ fits KString (CS "${x}.,{}").
 Proof. cbv [fits]. repeat split; try lia; discriminate. Qed.
+
+(** * C14: a failed conversion is reported under the path of the setting it came from *)
+Lemma in_seg_err {A} seg e p :
+  @in_seg A seg (Err e p) = Err e (if String.eqb seg "" then p else if String.eqb p "" then seg else seg +++ "." +++ p).
+Proof. reflexivity. Qed.
+
+Theorem struct_field_error_names_setting f2 o cfg goname ctag vtagtext k fr x vr vts pth v r p0 :
+  negb (is_upper_first goname) || tag_ignore ctag = false ->
+  parse_vtags vtagtext = Some vts -> tag_squash ctag = false ->
+  get_path "" (opts_path (r_p o) (if String.eqb (tag_name ctag) "" then lower_ascii_str goname else tag_name ctag)) cfg
+    = Ok (Some (pth, v)) ->
+  is_nil (Some v) = false ->
+  conv (r_ft o) (vo_dur (r_vo o)) k v = Err r p0 ->
+  struct_loop (S (S f2)) o cfg ((goname, ctag, vtagtext, TPrim k) :: fr) (x :: vr)
+  = in_seg pth (Err r p0).
+Proof.
+  intros U Pv Hs G Hn Hc. cbn [struct_loop]. rewrite U, Pv, Hs. cbv zeta. cbn [r_p].
+  rewrite G. cbn [bind]. rewrite Hn.
+  cbn [reify_merge_value]. cbn [reify_primitive]. rewrite Hn. cbn [base_ty r_ft r_vo]. rewrite Hc.
+  cbn [bind in_seg]. reflexivity.
+Qed.
+
+(* an element of a list: the index is put in front of the path *)
+Lemma in_seg_compose {A} s1 s2 (r : res A) : s1 <> "" -> s2 <> "" ->
+  in_seg s1 (in_seg s2 r) = in_seg (s1 +++ "." +++ s2) r.
+Proof.
+  intros H1 H2. destruct r as [a|e p| |]; try reflexivity. cbn [in_seg].
+  destruct (String.eqb s1 "") eqn:E1; [apply String.eqb_eq in E1; contradiction|].
+  destruct (String.eqb s2 "") eqn:E2; [apply String.eqb_eq in E2; contradiction|].
+  assert (String.eqb (s1 +++ "." +++ s2) "" = false) as E3.
+  { destruct s1; [contradiction|]. reflexivity. }
+  rewrite E3. destruct (String.eqb p "") eqn:Ep.
+  - rewrite E2. reflexivity.
+  - assert (String.eqb (s2 +++ "." +++ p) "" = false) as E4 by (destruct s2; [contradiction|reflexivity]).
+    rewrite E4. f_equal.
+    assert (forall a b c : string, (a +++ b) +++ c = a +++ (b +++ c)) as Assoc.
+    { induction a as [|ch0 a' IHa]; intros b c; simpl; [reflexivity|]. rewrite IHa. reflexivity. }
+    rewrite !Assoc. reflexivity.
+Qed.
+
+Example error_path_example :
+  let o := {| r_p := {| p_sep := "."; p_maxIdx := 1024; p_numKeys := false; p_escape := false |}; r_h := 0%N;
+              r_vo := {| vo_dur := fun _ => None |}; r_ft := [] |} in
+  let t := TStruct [("Srv", "srv", "", TSlice (TStruct [("Port", "net.port", "", TPrim (KUint 16))]))] in
+  unpack o (TPtr t) (GPtr (zero t))
+    (VSub [("srv", ("srv", VSub [] (Some [("0", VSub [("net", ("net", VSub [("port", ("port", VUint 80))] None))] None);
+                                           ("1", VSub [("net", ("net", VSub [("port", ("port", VInt (-1)))] None))] None)])))] None)
+  = Err ENegative "srv.1.net.port".
+Proof. vm_compute. reflexivity. Qed.
